@@ -55,7 +55,8 @@ def extra() -> list[Seed]:
     the expected output is not known (= the input, so they never count as 'documented' edits)."""
     if not EXTRA.exists():
         return []
-    return [Seed(codemod=r["codemod"], test="extra::" + r["name"], input=r["input"], expected=r["input"]) for r in json.loads(EXTRA.read_text())]
+    # a probe MAY state the documented edit it expects ("expected"): only such probes are judged by C16
+    return [Seed(codemod=r["codemod"], test="extra::" + r["name"], input=r["input"], expected=r.get("expected", r["input"])) for r in json.loads(EXTRA.read_text())]
 
 
 def by_codemod(changing_only: bool = True, with_extra: bool = False) -> dict[str, list[Seed]]:
